@@ -46,7 +46,7 @@ theorem length_filter_not {α} (p : α → Bool) : ∀ l : List α,
   | [] => rfl
   | x :: xs => by
       have := length_filter_not p xs
-      by_cases h : p x <;> simp [List.filter_cons, h] <;> omega
+      by_cases h : p x <;> simp [h] <;> omega
 
 theorem two_le_length_of_mem {α} (l : List α) (a b : α) (ha : a ∈ l) (hb : b ∈ l) (hab : a ≠ b) :
     2 ≤ l.length := by
